@@ -695,6 +695,10 @@ where
             st.x(kind, detail);
         }
     }
+    for m in probes::compat_probe(&mut st.rng) {
+        let (kind, detail) = m.split_once(": ").unwrap_or((m.as_str(), ""));
+        st.x(kind, detail);
+    }
     for m in probes::loop_probe(&mut st.rng) {
         let (kind, detail) = m.split_once(": ").unwrap_or((m.as_str(), ""));
         st.x(kind, detail);
